@@ -122,7 +122,7 @@ pub fn h_generations_disjoint(s: &mut Src) {
 }
 //# props=C14,C10
 pub fn h_load_factor(s: &mut Src) { let n = s.isize(); if !s.assume(0 <= n && n <= 0x4000_0000) { return; } let r = load_factor(n); assert!(r == n - n / 4 && 4 * r >= 3 * n); }
-//# props=C10
+//# props=C10,C14
 pub fn h_threshold_after_resize(s: &mut Src) { let n = s.usize(); if !s.assume(1 <= n && n <= 0x2000_0000) { return; } let r = threshold_after_resize(n); assert!(r as i128 == 2 * n as i128 - (n / 2) as i128); assert!(n % 2 != 0 || 4 * r as i128 == 3 * (2 * n as i128)); }
 //# props=C10,C14
 pub fn h_new_table_len(s: &mut Src) { let n = s.usize(); if !s.assume(1 <= n && n <= 0x2000_0000) { return; } let r = new_table_len(n); assert!(r as u128 == 2 * n as u128); assert!(!is_pow2(n as u64) || is_pow2(r as u64)); }
